@@ -12,8 +12,9 @@
 (*   freq, inter, count (0 = none), until (<<>> or 7-tuple),               *)
 (*   mon, wk, yd, md, H, M, S, pos, easter : sequences of integers,        *)
 (*   dow : sequence of <<ordinal, weekday>> (Mon = 1, ordinal 0 = every),  *)
-(*   shift : <<days, biz, dir>>  (biz business days; dir -1/0/+1 is the    *)
-(*           direction a weekend date is first moved in; 0 = no biz part)  *)
+(*   shift : <<days, biz, dir, inv>>  (biz business days, signed; dir      *)
+(*           -1/0/+1 is the direction of the business day part, 0 = none;  *)
+(*           inv = 1 for the B+ / B- spellings, see ShiftDay)              *)
 EXTENDS Instant, SequencesExt, FiniteSets
 
 SS(s) == {s[i] : i \in 1..Len(s)}
@@ -125,12 +126,27 @@ BizStep(n, k) ==
        IN BizStep(nx, k - s)
 RECURSIVE ToBiz(_, _)
 ToBiz(n, dir) == IF IsBizDay(n) THEN n ELSE ToBiz(n + dir, dir)
-HasShift(r) == r.shift # <<0, 0, 0>>
+HasShift(r) == r.shift[1] # 0 \/ r.shift[3] # 0
+Abs(x) == IF x < 0 THEN -x ELSE x
+(* SHIFT=d,bB: first d calendar days; then the business day part: a date on a weekend is moved to the adjacent   *)
+(* business day in the direction of the shift - with the plain spelling (3B, -3B) that day is the first of the   *)
+(* b business days (Sunday + 1B = Monday, as in the pinned test rrul_50), with the B+ / B- spellings (3B+, -3B-)  *)
+(* it is not (Sunday + 1B+ = Tuesday) - and the remaining business days are counted from there.  0B / 0B+ move a *)
+(* weekend date to Monday, -0B / 0B- to Friday.                                                                  *)
 ShiftDay(r, n) ==
   IF ~HasShift(r) THEN n ELSE
-  LET a == n + r.shift[1] IN
-  IF r.shift[3] = 0 THEN a ELSE BizStep(ToBiz(a, r.shift[3]), r.shift[2])
+  LET a == n + r.shift[1]
+      dir == r.shift[3]
+      b == Abs(r.shift[2])
+      inv == Len(r.shift) >= 4 /\ r.shift[4] = 1
+  IN IF dir = 0 THEN a
+     ELSE IF IsBizDay(a) THEN BizStep(a, dir * b)
+     ELSE BizStep(ToBiz(a, dir), dir * (IF b > 0 /\ ~inv THEN b - 1 ELSE b))
 ShiftAll(r, c) == IF ~HasShift(r) THEN c ELSE [i \in 1..Len(c) |-> <<ShiftDay(r, c[i][1]), c[i][2]>>]
+(* rules whose selected dates can end up in another period: BYEASTER offsets and SHIFT *)
+Displaced(r) == HasShift(r) \/ r.easter # <<>>
+(* no date is displaced by more than this many days: 366 + 366 business days + weekends *)
+MaxDispl == 900
 
 (* ---------------- one period for FREQ >= DAILY ---------------- *)
 (* returns the period's ordered occurrence sequence, and whether the period starts after "last" *)
@@ -174,14 +190,37 @@ TakeD(days, times, i, first, last, lim, out) ==
   IF i > Len(days) \/ Len(out) >= lim THEN out
   ELSE IF days[i] < first[1] \/ days[i] > last[1] THEN TakeD(days, times, i + 1, first, last, lim, out)
   ELSE TakeD(days, times, i + 1, first, last, lim, TakeT(days[i], times, 1, first, last, lim, out))
-StepLong(r, ds, times, st, last, lim) ==
+StepLong0(r, ds, times, st, last, lim) ==
   LET p == Period(r, ds, st.k) IN
-  IF p.start > last[1] + (IF HasShift(r) THEN 800 ELSE 0) THEN [st EXCEPT !.done = TRUE]
+  IF p.start > last[1] THEN [st EXCEPT !.done = TRUE]
   ELSE LET o == IF r.pos = <<>>
-                THEN (* the shifted date replaces the unshifted one (dates that coincide are one date) *)
-                     TakeD(SortInts({ShiftDay(r, n) : n \in p.days}), times, 1, Pair(ds), last, lim, st.out)
-                ELSE Take(ShiftAll(r, SetPos(r, Cross(SortInts(p.days), times))), 1, Pair(ds), last, lim, st.out)
+                THEN TakeD(SortInts(p.days), times, 1, Pair(ds), last, lim, st.out)
+                ELSE Take(SetPos(r, Cross(SortInts(p.days), times)), 1, Pair(ds), last, lim, st.out)
        IN [st EXCEPT !.k = @ + 1, !.out = o, !.done = Len(o) >= lim]
+(* displaced rules: the selected dates of every period - those before DTSTART's period included - are moved,    *)
+(* dates that coincide are one date, and the moved date is what DTSTART, UNTIL and COUNT apply to.  Moved dates  *)
+(* wait in st.pend until no later period can still produce an earlier one.                                       *)
+StepLongX(r, ds, times, st, last, lim) ==
+  LET p == Period(r, ds, st.k)
+      nxt == Period(r, ds, st.k + 1).start
+      sel == IF r.pos = <<>> THEN {<<ShiftDay(r, n), times[j]>> : n \in p.days, j \in 1..Len(times)}
+             ELSE LET c == ShiftAll(r, SetPos(r, Cross(SortInts(p.days), times))) IN {c[i] : i \in 1..Len(c)}
+      pend == st.pend \cup {x \in sel : ~PLt(x, Pair(ds)) /\ ~PLt(last, x)}
+      over == p.start - MaxDispl > last[1]
+      safe == IF over THEN pend ELSE {x \in pend : x[1] < nxt - MaxDispl}
+      srt == SetToSortSeq(safe, PLt)
+      room == lim - Len(st.out)
+      o == st.out \o (IF Len(srt) > room THEN SubSeq(srt, 1, room) ELSE srt)
+  IN [st EXCEPT !.k = @ + 1, !.out = o, !.pend = pend \ safe, !.done = over \/ Len(o) >= lim]
+StepLong(r, ds, times, st, last, lim) ==
+  IF Displaced(r) THEN StepLongX(r, ds, times, st, last, lim) ELSE StepLong0(r, ds, times, st, last, lim)
+(* the first period looked at: far enough before DTSTART's for displaced rules *)
+FirstK(r) ==
+  IF ~Displaced(r) \/ ~DailyOrLonger(r.freq) THEN 0
+  ELSE CASE r.freq = "YEARLY" -> -((3 \div r.inter) + 1)
+         [] r.freq = "MONTHLY" -> -((31 \div r.inter) + 1)
+         [] r.freq = "WEEKLY" -> -((130 \div r.inter) + 1)
+         [] OTHER -> -((MaxDispl \div r.inter) + 1)
 
 (* sub-daily: the period is one hour / minute / second starting at cur *)
 AddSecs(cur, s) == <<cur[1] + ((cur[2] + s) \div 86400), (cur[2] + s) % 86400>>
@@ -230,7 +269,7 @@ RSet(r0, ds, hz, lim0, budget) ==
   LET r == Eff(r0, ds)
       lim == IF r.count > 0 /\ r.count < lim0 THEN r.count ELSE lim0
       last == LastOf(r, hz)
-      st0 == [k |-> 0, cur |-> Start(r, ds), out |-> <<>>, done |-> FALSE]
+      st0 == [k |-> FirstK(r), cur |-> Start(r, ds), out |-> <<>>, done |-> FALSE, pend |-> {}]
       fin == Run2(r, ds, TimesOf(r, ds), st0, last, lim, budget)
   IN [occ |-> fin.out, decided |-> fin.done, hitcount |-> r.count > 0 /\ Len(fin.out) >= r.count]
 
